@@ -1,5 +1,5 @@
 """C01 — generated hashes are those of the ssdeep 2.14.1 algorithm: the step relation, clause by clause (not the closed form)."""
-from ..rules import data, fold, rolling, engine, piece, generator as gen, blocksize, casts
+from ..rules import data, fold, rolling, engine, piece, generator as gen, blocksize, casts, summary
 
 EXPL = ("Byte-exact agreement with ssdeep over all inputs is a statement about values; what is decided here is that every STEP of the "
         "generator's state machine is the step ssdeep's fuzzy.c defines, each step being loop-free code whose effect is read off the "
@@ -46,6 +46,7 @@ def run(ctx):
         ctx.guard("C01", "delegate", lambda: gen.finalizers_delegate(ctx, prog))
         ctx.guard("C01", "digest-src", lambda: engine.digest_sources(ctx, prog))
         ctx.guard("C01", "digest-last", lambda: piece.digest_last_piece(ctx, prog))
+        ctx.guard("C01", "summaries", lambda: summary.check(ctx, prog, 'internals::generate::', floor=8))
         ctx.guard("C01", "casts", lambda: casts.census(ctx, prog, scope='internals::generate::', floor=3))
         if c.startswith("unsafe"):
             ctx.guard("C01", "mirror", lambda: engine.mirror(ctx, prog))
